@@ -10,7 +10,9 @@ import (
 	"fmt"
 	"io"
 	"math/rand"
+	"os"
 	"runtime"
+	"strings"
 	"sync"
 	"time"
 
@@ -137,7 +139,34 @@ func runConc(in, out string, _ []string) error {
 					results[g] = res{src, td, jd, pan}
 				}(g, src)
 			}
-			wg.Wait()
+			// a wave that does not come back within ten minutes hangs (a compile takes well under a second): the stacks
+			// say where, the event has no action in the specification, and the process ends here
+			done := make(chan struct{})
+			go func() { wg.Wait(); close(done) }()
+			select {
+			case <-done:
+			case <-time.After(10 * time.Minute):
+				buf := make([]byte, 1<<22)
+				buf = buf[:runtime.Stack(buf, true)]
+				site := "unknown"
+				for _, blk := range strings.Split(string(buf), "\n\n") {
+					if strings.Contains(blk, "[running]") || strings.Contains(blk, "[runnable]") {
+						for _, ln := range strings.Split(blk, "\n") {
+							if strings.HasPrefix(ln, "github.com/anz-bank/sysl/") {
+								site = strings.TrimPrefix(strings.SplitN(ln, "(", 2)[0], "github.com/anz-bank/sysl/")
+								break
+							}
+						}
+						if site != "unknown" {
+							break
+						}
+					}
+				}
+				w.Emit(tr.Ev{"t": sc.ID, "e": "hang", "wave": wv, "width": width, "site": site})
+				w.Flush()
+				w.Close()
+				os.Exit(0)
+			}
 			runtime.GOMAXPROCS(old)
 			for _, r := range results {
 				obs(r.src, r.td, r.jd, r.pan, wv)
